@@ -721,12 +721,12 @@ def addressing_program(h, w, zones=8):
 # ---------------------------------------------------------------- C19 -------
 PRINT_VALUES = [
     lambda env: N(value=5), lambda env: N(value=2.5), lambda env: N(value=0), lambda env: R.Neg(N(value=3)),
-    lambda env: R.Str('abc'), lambda env: R.Str('two words'), lambda env: R.Str('C:\\new\\table'), lambda env: R.Var('pth'), lambda env: R.Reg('hue'), lambda env: R.Reg('kelvin'),
+    lambda env: R.Str('abc'), lambda env: R.Str('two words'), lambda env: R.Str('C:\\new\\table'), lambda env: R.Str('"q"'), lambda env: R.Str('say "hi" twice'), lambda env: R.Var('pth'), lambda env: R.Reg('hue'), lambda env: R.Reg('kelvin'),
     lambda env: R.Var('y'), lambda env: R.Var('s'), lambda env: R.Bin('+', R.Var('y'), N(value=1)),
     lambda env: R.Bin('/', R.Var('y'), N(value=2)), lambda env: R.Bin('<', N(value=1), N(value=2)),
     lambda env: R.Bin('and', N(value=1), N(value=0)), lambda env: R.CallE('twice', [N(value=4)]),
 ]
-FIELDS = ['{}', '{:>5}', '{:<4}|', '{hue}', '{y}', '{s}', '{pth}', '{y:03d}', '{{x}}', 'txt ', '\\n', '{kelvin:>6}']
+FIELDS = ['{}', '{:>5}', '{:<4}|', '"{}"', '"', '{hue}', '{y}', '{s}', '{pth}', '{y:03d}', '{{x}}', 'txt ', '\\n', '{kelvin:>6}']
 
 
 def output_program():
@@ -756,9 +756,9 @@ def output_program():
                 if parts[-1] == '\\n':
                     parts[-1] = 'z'
                 fmt = ' '.join(parts) if ch.flag(0.7) else ''.join(parts)
-                nargs = sum(1 for p in parts if p.startswith('{') and not p.startswith('{{') and
+                nargs = sum(1 for p in (q.strip('"') for q in parts) if p.startswith('{') and not p.startswith('{{') and
                             (p[1] in '}:' or p[1].isdigit()))
-                args = [ch.pick(PRINT_VALUES[:12])(env) for _ in range(nargs)]
+                args = [ch.pick(PRINT_VALUES[:14])(env) for _ in range(nargs)]
                 # keep the line state unambiguous: printf is followed by an explicit line end
                 return [R.Printf(fmt, args), R.Print(None, ln=True)]
             return [R.Action('on', [R.Operand('light', R.Str('A'))])]
